@@ -1,5 +1,7 @@
 import WmModel.Props.C01
 import WmModel.Props.C01Conf
+import WmModel.Props.C01Stage
+import WmModel.Props.C02Tie
 #print axioms Wm.Pipeline.no_loss_inv
 #print axioms Wm.Pipeline.ack_after_accept
 #print axioms Wm.Pipeline.publishOk_creates_downstream
@@ -17,3 +19,12 @@ import WmModel.Props.C01Conf
 #print axioms Wm.Pipeline.enabled_empty_terminal
 #print axioms Wm.Pipeline.conf_ok_sound
 #print axioms Wm.Pipeline.conf_ok_delivers
+#print axioms Wm.Pipeline.ackCond_iff_ok
+#print axioms Wm.Pipeline.stage_effect_eq_realEff
+#print axioms Wm.Pipeline.classify_rep
+#print axioms Wm.Pipeline.rep_wf
+#print axioms Wm.Pipeline.handle_stage_facts
+#print axioms Wm.Pipeline.pipeline_refines_handle
+#print axioms Wm.Pipeline.nopub_stage_never_acks_outputs
+#print axioms Wm.GoHandle.handle_skeleton_eq_model
+#print axioms Wm.GoHandle.publish_skeleton_eq_model
